@@ -17,7 +17,7 @@ RULES = {
 WITNESSES = ['C12ArenaIsPrivate', 'C12RootIsPrivate']  # thorough tier: compile_fail witnesses in /verif/witness
 CONTROL_REV = '078b142'  # thorough tier: the rules must still report the defects found (and since fixed) on the original tree
 CONTROLS = [('C12.R3', 'Tree::add_child_node#Err(ChildExists)-after-insert'), ('C12.R3', 'Tree::add_child_node#Err(ChildExists)-after-set:isleaf')]
-FLOORS = {'C12.R4': 24, 'C12.R1': 10, 'C12.R2': 13, 'C12.R3': 5}
+FLOORS = {'C12.R4': 29, 'C12.R1': 10, 'C12.R2': 13, 'C12.R3': 5}
 EXPLANATION = (
     'Each of the six mutators performs a fixed set of paired link updates; the contracts below each preserve '
     '{links mirror, isleaf <=> no children, one parentless root, stored = reachable, indices/values of untouched '
